@@ -11,7 +11,7 @@ Regular expressions and fnmatch are uninterpreted (match / captured group are fu
 a set[str] is modelled as the sequence of its elements (only `in` and any() are applied to it)."""
 import z3
 
-from pyvc.api import (contract, lemma, Int, Bool, Str, SeqOf, Opt, Rec, Dict, implies, call, mk, opaque, reveal, ih, uf)
+from pyvc.api import (contract, lemma, Int, Bool, Str, SeqOf, Opt, Rec, Dict, implies, call, mk, opaque, reveal, ih, uf, use)
 from pyvc.ex_call import EXTERNALS
 from pyvc.ty import VBool, Unsupported
 from contracts._common import ViolationT, PathT, re_search, re_search_i, re_group, re_group_i, path_str
@@ -30,7 +30,7 @@ P_LINE_BR = r"ignore\[([^\]]+)\]"
 P_LINE_SP = r"ignore\s+([^\s#]+(?:\s+[^\s#]+)*)"
 P_NEXT_BR = r"ignore-next-line\[([^\]]+)\]"
 
-BlockStateT = Rec("_BlockState", cls=IG + "_BlockState", in_block=Bool, rules=SeqOf(Str))
+BlockStateT = Rec("_BlockState", cls=IG + "_BlockState", in_block=Bool, rules=SeqOf(Str), covers_violation=Bool)
 ParserT = Rec("IgnoreDirectiveParser", cls=IG + "IgnoreDirectiveParser", project_root=PathT, repo_patterns=SeqOf(Str),
               _ignore_cache=Dict)
 
@@ -152,20 +152,21 @@ def is_end(line: Str) -> Bool:
     return block_marker(line, "ignore-end")
 
 
-def block_scan(rest: SeqOf(Str), i: Int, in_block: Bool, rules: SeqOf(Str), vline: Int, rule_id: Str) -> Bool:
+def block_scan(rest: SeqOf(Str), i: Int, in_block: Bool, rules: SeqOf(Str), covers: Bool, vline: Int, rule_id: Str) -> Bool:
     """What _check_block_ignore computes on the remaining lines `rest` (first of them is line i) from the scanner
-    state (in_block, rules). Code-derived helper spec."""
+    state (in_block, rules, covers_violation). Code-derived helper spec (after the fix: a block end only decides when
+    the block was opened at or before the violation line)."""
     if len(rest) == 0:
         return False
     if is_start(rest[0]):
-        return block_scan(rest[1:], i + 1, True, start_rules(rest[0]), vline, rule_id)
+        return block_scan(rest[1:], i + 1, True, start_rules(rest[0]), i <= vline, vline, rule_id)
     if is_end(rest[0]):
-        if in_block and i > vline and rmv(rules, rule_id):
+        if in_block and covers and i > vline and rmv(rules, rule_id):
             return True
-        return block_scan(rest[1:], i + 1, False, [], vline, rule_id)
+        return block_scan(rest[1:], i + 1, False, [], covers, vline, rule_id)
     if i == vline and in_block:
         return rmv(rules, rule_id)
-    return block_scan(rest[1:], i + 1, in_block, rules, vline, rule_id)
+    return block_scan(rest[1:], i + 1, in_block, rules, covers, vline, rule_id)
 
 
 def enclosed(rest: SeqOf(Str), i: Int, in_block: Bool, rules: SeqOf(Str), vline: Int, rule_id: Str) -> Bool:
@@ -185,7 +186,7 @@ def enclosed(rest: SeqOf(Str), i: Int, in_block: Bool, rules: SeqOf(Str), vline:
 
 @opaque
 def block_ignores(lines: SeqOf(Str), vline: Int, rule_id: Str) -> Bool:
-    return 0 < vline <= len(lines) and block_scan(lines, 1, False, [], vline, rule_id)
+    return 0 < vline <= len(lines) and block_scan(lines, 1, False, [], False, vline, rule_id)
 
 
 @opaque
@@ -202,10 +203,11 @@ class IsValidLineRange:
         return 0 < line <= max_lines
 
 
-@contract(IG + "_BlockState.__init__", props=["C04"], types=dict(self=BlockStateT), modifies=["self.in_block", "self.rules"])
+@contract(IG + "_BlockState.__init__", props=["C04"], types=dict(self=BlockStateT),
+          modifies=["self.in_block", "self.rules", "self.covers_violation"])
 class BlockStateInit:
     def ensures(self):
-        return (not self.in_block) and self.rules == []
+        return (not self.in_block) and self.rules == [] and not self.covers_violation
 
 
 @contract(IG + "_parse_ignore_start_rules", props=["C04"], types=dict(line=Str), returns=SeqOf(Str),
@@ -221,7 +223,9 @@ class ParseIgnoreStartRules:
           returns=Opt(Bool), modifies=["state.in_block", "state.rules"])
 class HandleBlockEnd:
     def value(line_num, violation, old):
-        return True if (old.state.in_block and line_num > violation.line and rmv(old.state.rules, violation.rule_id)) else None
+        # a block end decides only for a violation line inside the block (opened at or before it, closed after it)
+        return True if (old.state.in_block and old.state.covers_violation and line_num > violation.line
+                        and rmv(old.state.rules, violation.rule_id)) else None
 
     def ensures_state(line_num, violation, state, old, result):
         return (implies(result is None, (not state.in_block) and state.rules == [])
@@ -230,19 +234,22 @@ class HandleBlockEnd:
 
 @contract(IG + "_process_block_line", props=["C04"],
           types=dict(line=Str, line_num=Int, violation=ViolationT, state=BlockStateT), returns=Opt(Bool),
-          modifies=["state.in_block", "state.rules"])
+          modifies=["state.in_block", "state.rules", "state.covers_violation"])
 class ProcessBlockLine:
     def reveals(line):
         return reveal(is_start, line) and reveal(is_end, line)
 
     def ensures_start(line, line_num, violation, state, old, result):
-        return implies(is_start(line), result is None and state.in_block and state.rules == start_rules(line))
+        return implies(is_start(line), result is None and state.in_block and state.rules == start_rules(line)
+                       and state.covers_violation == (line_num <= violation.line))
 
     def ensures_end(line, line_num, violation, state, old, result):
         return implies((not is_start(line)) and is_end(line),
-                       (result == (True if (old.state.in_block and line_num > violation.line
+                       (result == (True if (old.state.in_block and old.state.covers_violation
+                                            and line_num > violation.line
                                             and rmv(old.state.rules, violation.rule_id)) else None))
-                       and implies(result is None, (not state.in_block) and state.rules == []))
+                       and implies(result is None, (not state.in_block) and state.rules == [])
+                       and state.covers_violation == old.state.covers_violation)
 
     def ensures_plain(line, line_num, violation, state, old, result):
         return implies((not is_start(line)) and (not is_end(line)),
@@ -252,7 +259,8 @@ class ProcessBlockLine:
     def ensures_state_kept(line, line_num, violation, state, old, result):
         # the scanner state only changes on marker lines that do not decide
         return implies(result is not None or ((not is_start(line)) and (not is_end(line))),
-                       state.in_block == old.state.in_block and state.rules == old.state.rules)
+                       state.in_block == old.state.in_block and state.rules == old.state.rules
+                       and state.covers_violation == old.state.covers_violation)
 
 
 @contract(IG + "_check_block_ignore", props=["C04"],
@@ -267,8 +275,9 @@ class CheckBlockIgnore:
 
     def inv0(lines, violation, state, rest):
         return len(rest) <= len(lines) and \
-            block_scan(lines, 1, False, [], violation.line, violation.rule_id) == \
-            block_scan(rest, len(lines) - len(rest) + 1, state.in_block, state.rules, violation.line, violation.rule_id)
+            block_scan(lines, 1, False, [], False, violation.line, violation.rule_id) == \
+            block_scan(rest, len(lines) - len(rest) + 1, state.in_block, state.rules, state.covers_violation,
+                       violation.line, violation.rule_id)
 
 
 # ------------------------------------------------------------------ contracts: previous line / same line
@@ -496,43 +505,69 @@ def not_a_marker_at(rest, i, vline):
     return implies(i <= vline and vline - i < len(rest), (not is_start(rest[vline - i])) and (not is_end(rest[vline - i])))
 
 
-@lemma(props=["C04"], types=dict(rest=SeqOf(Str), i=Int, in_block=Bool, rules=SeqOf(Str), vline=Int, rule_id=Str),
-       name="enclosing-block-silences")
-def enclosed_implies_scan(rest, i, in_block, rules, vline, rule_id):
-    """By induction on the remaining lines: whenever the violation line is enclosed by a block naming its rule
-    (property text), the scanner of _check_block_ignore says `ignored`."""
-    if not not_a_marker_at(rest, i, vline):
+@lemma(props=["C04"], types=dict(rest=SeqOf(Str), i=Int, in_block=Bool, rules=SeqOf(Str), covers=Bool, vline=Int, rule_id=Str),
+       name="scan-past-the-violation-line-decides-nothing")
+def scan_after_false(rest, i, in_block, rules, covers, vline, rule_id):
+    """By induction: once the scan is past the violation line with no block open (or only a block opened after that
+    line), nothing further can silence the violation -- directives below the violation's scope change nothing."""
+    if i <= vline or (in_block and covers):
         return True
     if len(rest) == 0:
-        return implies(enclosed(rest, i, in_block, rules, vline, rule_id), block_scan(rest, i, in_block, rules, vline, rule_id))
+        return not block_scan(rest, i, in_block, rules, covers, vline, rule_id)
     if is_start(rest[0]):
-        ih(enclosed_implies_scan, rest[1:], i + 1, True, start_rules(rest[0]), vline, rule_id)
+        ih(scan_after_false, rest[1:], i + 1, True, start_rules(rest[0]), False, vline, rule_id)
     elif is_end(rest[0]):
-        ih(enclosed_implies_scan, rest[1:], i + 1, False, [], vline, rule_id)
+        ih(scan_after_false, rest[1:], i + 1, False, [], covers, vline, rule_id)
     else:
-        ih(enclosed_implies_scan, rest[1:], i + 1, in_block, rules, vline, rule_id)
-    return implies(enclosed(rest, i, in_block, rules, vline, rule_id), block_scan(rest, i, in_block, rules, vline, rule_id))
+        ih(scan_after_false, rest[1:], i + 1, in_block, rules, covers, vline, rule_id)
+    return not block_scan(rest, i, in_block, rules, covers, vline, rule_id)
+
+
+@lemma(props=["C04"], types=dict(rest=SeqOf(Str), i=Int, in_block=Bool, rules=SeqOf(Str), covers=Bool, vline=Int, rule_id=Str),
+       name="block-scan-is-enclosure")
+def scan_is_enclosed(rest, i, in_block, rules, covers, vline, rule_id):
+    """By induction on the remaining lines: the scanner of _check_block_ignore says `ignored` exactly when the
+    violation line is enclosed by a block naming its rule (property text)."""
+    if i > vline or not not_a_marker_at(rest, i, vline):
+        return True
+    if len(rest) == 0:
+        return block_scan(rest, i, in_block, rules, covers, vline, rule_id) == enclosed(rest, i, in_block, rules, vline, rule_id)
+    if i == vline:
+        use(scan_after_false, rest[1:], i + 1, in_block, rules, covers, vline, rule_id)
+    elif is_start(rest[0]):
+        ih(scan_is_enclosed, rest[1:], i + 1, True, start_rules(rest[0]), True, vline, rule_id)
+    elif is_end(rest[0]):
+        ih(scan_is_enclosed, rest[1:], i + 1, False, [], covers, vline, rule_id)
+    else:
+        ih(scan_is_enclosed, rest[1:], i + 1, in_block, rules, covers, vline, rule_id)
+    return block_scan(rest, i, in_block, rules, covers, vline, rule_id) == enclosed(rest, i, in_block, rules, vline, rule_id)
 
 
 @lemma(props=["C04"], types=dict(lines=SeqOf(Str), v=ViolationT), name="block-encloses-violation")
 def block_top(lines, v):
-    """Top-level statement for _check_block_ignore (one direction): enclosed => ignored."""
+    """Top-level statement for _check_block_ignore: ignored <=> the violation line lies inside a block whose rule set
+    names the rule; in particular a block that starts after the violation line, or was closed before it, changes nothing."""
     if v.line < 1 or v.line > len(lines) or is_start(lines[v.line - 1]) or is_end(lines[v.line - 1]):
         return True
     reveal(block_ignores, lines, v.line, v.rule_id)
-    enclosed_implies_scan(lines, 1, False, [], v.line, v.rule_id)
-    return implies(enclosed(lines, 1, False, [], v.line, v.rule_id), call(IG + "_check_block_ignore", lines, v))
+    use(scan_is_enclosed, lines, 1, False, [], False, v.line, v.rule_id)
+    return call(IG + "_check_block_ignore", lines, v) == enclosed(lines, 1, False, [], v.line, v.rule_id)
+
+
+@lemma(props=["C04"], types=dict(lines=SeqOf(Str), v=ViolationT), name="lines-outside-the-file-are-never-in-a-block")
+def block_range(lines, v):
+    reveal(block_ignores, lines, v.line, v.rule_id)
+    return implies(v.line < 1 or v.line > len(lines), not call(IG + "_check_block_ignore", lines, v))
 
 
 @lemma(props=["C04"], types=dict(l1=Str, l2=Str, l3=Str, v=ViolationT), name="block-after-violation-changes-nothing")
 def block_after_violation(l1, l2, l3, v):
     """Property text: a directive placed outside the scope changes nothing -- a block that starts AFTER the violation
-    line does not silence it. Stated on the smallest shape (violation on line 1 of a three-line file) as the three
-    scanner steps _check_block_ignore performs (no sequence reasoning, so that the solver finds the counterexample
-    reliably). Expected to FAIL (known finding C04-block-silences-earlier-lines)."""
+    line does not silence it. Smallest shape (violation on line 1 of a three-line file), as the three scanner steps
+    _check_block_ignore performs. (Was refuted before fix C04-block-silences-earlier-lines.)"""
     if v.line != 1 or is_start(l1) or is_end(l1):
         return True
-    st = mk(BlockStateT, in_block=False, rules=[])
+    st = mk(BlockStateT, in_block=False, rules=[], covers_violation=False)
     r1 = call(IG + "_process_block_line", l1, 1, v, st)
     if r1 is not None:
         return not r1
@@ -543,17 +578,6 @@ def block_after_violation(l1, l2, l3, v):
     if r3 is not None:
         return not r3
     return True
-
-
-@lemma(props=["C04"], types=dict(l1=Str, l2=Str, l3=Str, v=ViolationT), name="block-after-violation-adjusted")
-def block_after_violation_adjusted(l1, l2, l3, v):
-    """Finding-adjusted: on that shape the ONLY way the violation is silenced is a later block (start on line 2, end on
-    line 3) whose rules name it."""
-    if v.line != 1 or is_start(l1) or is_end(l1):
-        return True
-    reveal(block_ignores, [l1, l2, l3], v.line, v.rule_id)
-    return call(IG + "_check_block_ignore", [l1, l2, l3], v) == \
-        (is_start(l2) and (not is_start(l3)) and is_end(l3) and rmv(start_rules(l2), v.rule_id))
 
 
 # ------------------------------------------------------------------ lemma: isolation
